@@ -526,6 +526,7 @@ META["C18"] = dict(
         "mon.failed_then_successful_save_sequences": g(100, 1000),
         "mon.saves.none": g(150, 1500), "mon.saves.invalid-value": g(300, 6000), "mon.saves.unserialisable-value": g(80, 1500),
         "mon.saves.oserror-at-write-open": g(150, 3000), "mon.saved_reparsed": g(80, 800), "mon.saves.unencodable-value": g(100, 1500),
+        "st.target_spelling.fsspec-local": g(30, 300),
         "st.mode.multifile.overwrite": g(30, 300), "st.mode.multifile.no-overwrite": g(30, 300),
         "st.mode.single.overwrite": g(20, 200), "st.mode.single.no-overwrite": g(20, 200),
     },
